@@ -156,3 +156,52 @@ def gen_selector(rng, n_models=8):
 def gen_clock(rng):
     kind = rng.choice(['steady', 'steady', 'stall', 'back', 'leap', 'tiny'])
     return {'kind': kind, 'step': rng.choice([0.25, 0.9, 3.0]), 'start': rng.choice([0.0, 1.0e9])}
+
+
+# ---------------------------------------------------------------------------------------------
+# post-processing consumers, run the way an analyst would
+
+CONSUMERS = ['wp', 'wpr', 'ep', 'fo', 'plot']
+
+
+def run_consumer(sim, op, arg, sel, tag, extra=None):
+    """Run one post-processing function; returns ('ok', canonical outputs) or ('exc', 'Type@where')."""
+    import glob as _glob
+    import shutil
+    from sedfitter import (write_parameters, write_parameter_ranges, extract_parameters, filter_output, plot)
+    extra = extra or {}
+    od = sim.path('o_' + tag)
+    shutil.rmtree(od, ignore_errors=True)
+    os.makedirs(od)
+    sel = tuple(sel)
+    if op == 'wp':
+        r = call(write_parameters, arg, od + '/wp.txt', select_format=sel)
+    elif op == 'wpr':
+        r = call(write_parameter_ranges, arg, od + '/wpr.txt', select_format=sel)
+    elif op == 'ep':
+        r = call(extract_parameters, arg, od + '/ep_', select_format=sel)
+    elif op == 'fo':
+        r = call(filter_output, arg, output_good=od + '/good', output_bad=od + '/bad',
+                 **{extra.get('criterion', 'cpd'): extra.get('threshold', 3.7)})
+    elif op == 'plot':
+        r = call(plot, arg, select_format=sel, sed_type=extra.get('sed_type', 'interp'))
+    else:
+        raise env.HarnessError('consumer %r' % op)
+    if r[0] == 'exc':
+        return ('exc', '%s@%s' % (type(r[1]).__name__, where(r[1])), str(r[1])[:200])
+    if r[0] != 'ok':
+        return ('exc', r[0], '')
+    if op == 'plot':
+        figs = r[1]
+        res = []
+        for k in sorted(figs):
+            v = figs[k]
+            res.append((k, [np.asarray(sg, float).tobytes() for sg in v['lines'].get_segments()] if 'lines' in v else None))
+        return ('ok', res)
+    res = {}
+    for p in sorted(_glob.glob(od + '/*')):
+        if op == 'fo':
+            res[os.path.basename(p)] = [canon_record(x, meta=True) for x in read_fit_raw(p)[1]]
+        else:
+            res[os.path.basename(p)] = env.real_open(p, 'rb').read()
+    return ('ok', res)
